@@ -219,3 +219,42 @@ def specialise(fn, flag, value):
     ast.fix_missing_locations(f2)
     # merge `else: if ...` produced by the substitution back into elif form is not needed: unparse is canonical
     return f2
+
+
+def single_alias_env(fn):
+    """{name: value} for locals of fn assigned exactly once from a plain name, attribute path or constant (aliases)"""
+    count, val = {}, {}
+    for n in pyfront.walk_no_nested(fn):
+        if isinstance(n, ast.Assign):
+            for t in n.targets:
+                for x in ast.walk(t):
+                    if isinstance(x, ast.Name):
+                        count[x.id] = count.get(x.id, 0) + 1
+                        if len(n.targets) == 1 and isinstance(t, ast.Name):
+                            val[x.id] = n.value
+        elif isinstance(n, (ast.AugAssign, ast.AnnAssign)) and isinstance(n.target, ast.Name):
+            count[n.target.id] = count.get(n.target.id, 0) + 2
+        elif isinstance(n, (ast.For, ast.comprehension)):
+            for x in ast.walk(n.target):
+                if isinstance(x, ast.Name):
+                    count[x.id] = count.get(x.id, 0) + 2
+        elif isinstance(n, ast.ExceptHandler) and n.name:
+            count[n.name] = count.get(n.name, 0) + 2
+    params = {a.arg for a in fn.args.args + fn.args.kwonlyargs}
+    out = {}
+    for k, c in count.items():
+        if c == 1 and k in val and k not in params:
+            v = val[k]
+            if isinstance(v, (ast.Name, ast.Constant)) or (isinstance(v, ast.Attribute) and pyfront.dotted(v)):
+                out[k] = v
+    # resolve chains
+    for _ in range(4):
+        for k, v in list(out.items()):
+            if isinstance(v, ast.Name) and v.id in out and v.id != k:
+                out[k] = out[v.id]
+    return out
+
+
+def dealias(expr, env):
+    from . import pysym
+    return pysym.subst(expr, env)
